@@ -26,7 +26,7 @@ from dask._task_spec import Task, TaskRef, Alias
 
 PROPERTY = "C20"
 LEVEL = "other"
-BUDGET = {"quick": 240, "thorough": 2400}
+BUDGET = {"quick": 400, "thorough": 2400}
 
 EXPLANATION = (
     "Bounded symbolic execution (symx: SInt proxies over z3 Int, fork on every comparison, DFS over decision "
@@ -48,9 +48,10 @@ ASSUMPTIONS = [
 ]
 STUBS = ["AST rewrite: slice.indices -> symx.patch.py_indices in normalize_slice",
          "dask.array.slicing.int -> ShimInt, .math -> math_shim, .np -> np_shim (isnan only)"]
-ENUM = ["number of chunks per axis (1..3) and the step (one obligation each)", "every input of the take[...] obligations (integer-array indexers run through NumPy)",
+ENUM = ["number of chunks per axis (1..3) and the step (one obligation each)", "every input of the take[...], take_mixed[...], dask_indexer[...] and vindex_blocks[...] obligations (array indexers run through NumPy)",
         "operands of new_blockdim's float ceil (concretised)"]
-OUTSIDE = ["vindex, blocks[], dask-array indexers; integer / boolean NumPy array indexers only as solver-enumerated concrete inputs (obligation take[...])",
+OUTSIDE = ["integer / boolean array indexers (NumPy or dask), vindex and blocks[] only as solver-enumerated concrete inputs (obligations take[...], take_mixed[...], dask_indexer[...], vindex_blocks[...]): no symbolic claim for them",
+           "vindex with more than two point lists or broadcasting 2-d point arrays; blocks[] on grids larger than 2 x 2",
            "unknown (NaN) chunk sizes", "arrays with more than 2 dimensions, more than 3 chunks per axis, chunk sizes > bound"]
 
 BOUNDS = {
@@ -510,6 +511,153 @@ def mk_mixed(maxn, max_none, maxl, dtypes):
     return Obligation(f"take_mixed[len<={maxn},none<={max_none},chunk<={maxl},{'/'.join(dtypes)}]", setup, run)
 
 
+def mk_dask_indexer(maxn, maxl):
+    """indexers that are themselves dask arrays: a 1-d integer dask array (its own chunking, negatives, duplicates, size-0 chunks of the
+    indexed axis), a 0-d integer dask array, a 1-d boolean dask mask on one axis and a full-shape boolean dask mask; combined with an
+    integer / slice on the other axis. Values pass through NumPy: enumerated."""
+    OTHER = (":", "i", "s")
+
+    def setup(e):
+        ls = tuple(e.int(f"l{i}", 0, maxl) for i in range(3))
+        dim = ls[0] + ls[1] + ls[2]
+        e.assume(lambda: dim >= 1)
+        kind = e.pick("kind", ("int1d", "int0d", "bool1d", "boolfull"))
+        ax = e.choice("ax", 2)
+        other = e.pick("other", OTHER) if kind != "boolfull" else ":"
+        if kind == "int0d":
+            n = 1
+        elif kind in ("bool1d", "boolfull"):
+            n = 1 + e.choice("n", min(maxn, 2))
+        else:
+            n = 1 + e.choice("n", maxn)
+        idx = []
+        for t in range(n):
+            v = e.int(f"v{t}")
+            e.assume(lambda: (v >= -dim) & (v < dim))
+            idx.append(v)
+        ichunk = 1 + e.choice("ichunk", 2)
+        return ls, kind, ax, other, idx, ichunk
+
+    def run(e, ls, kind, ax, other, idx, ichunk):
+        import operator
+        import dask.array as da
+        ls = tuple(operator.index(c) for c in ls)
+        idx = [operator.index(v) for v in idx]
+        dim = sum(ls)
+        shape = [3]
+        shape.insert(ax, dim)
+        x = np.arange(int(np.prod(shape))).reshape(shape) * 3 + 1
+        chunks = [(2, 1)]
+        chunks.insert(ax, ls)
+        d = da.from_array(x, chunks=tuple(chunks))
+        o = {":": slice(None), "i": 1, "s": slice(1, None)}[other]
+        if kind == "int1d":
+            sel_np = np.array(idx)
+            sel_da = da.from_array(sel_np, chunks=ichunk)
+        elif kind == "int0d":
+            sel_np = np.int64(idx[0])
+            sel_da = da.from_array(np.array(idx[0]), chunks=())
+        elif kind == "bool1d":
+            sel_np = np.zeros(dim, dtype=bool)
+            sel_np[idx] = True
+            sel_da = da.from_array(sel_np, chunks=ichunk)
+        else:
+            sel_np = np.zeros(x.shape, dtype=bool)
+            flat = sel_np.reshape(-1)
+            for v in idx:
+                flat[(v * 2) % flat.size] = True
+            sel_da = da.from_array(sel_np, chunks=tuple(chunks) if ichunk == 1 else x.shape)
+        if kind == "boolfull":
+            inp, ida = (sel_np,), (sel_da,)
+        else:
+            inp, ida = [o], [o]
+            inp.insert(ax, sel_np)
+            ida.insert(ax, sel_da)
+            inp, ida = tuple(inp), tuple(ida)
+        want = x[inp]
+        r = d[ida]
+        got = r.compute(scheduler="sync")
+        what = f"x[{kind} {idx} on axis {ax}, other={other}] axis chunks {ls}, indexer chunks {ichunk}"
+        e.check(got.shape == want.shape and bool((got == want).all()), f"{what}: dask {got.tolist()} numpy {want.tolist()}")
+        if kind in ("int1d", "int0d"):
+            e.check(r.shape == want.shape, f"{what}: lazy shape {r.shape} != {want.shape}")
+            e.check(tuple(sum(c) for c in r.chunks) == want.shape, f"{what}: lazy chunks do not add up to the shape")
+        else:
+            # unknown chunk sizes along the masked axis are legitimate (nan); known ones must be truthful
+            e.check(r.ndim == want.ndim, f"{what}: lazy ndim {r.ndim} != {want.ndim}")
+            for a, (ln, w) in enumerate(zip(r.shape, want.shape)):
+                e.check(ln != ln or ln == w, f"{what}: lazy length {ln} of axis {a} != {w}")
+            r.compute_chunk_sizes()
+            e.check(r.shape == want.shape, f"{what}: shape after compute_chunk_sizes {r.shape} != {want.shape}")
+        return got.tolist()
+
+    return Obligation(f"dask_indexer[len<={maxn},chunk<={maxl}]", setup, run)
+
+
+def mk_vindex_blocks(maxn, maxc, minn=1, nonneg=False):
+    """vindex point selection (one or two integer lists, broadcast against each other and combined with slices) and blocks[] indexing
+    (integers, slices, lists over the block grid) on a 2-d array with symbolic (concretised) chunk sizes: enumerated."""
+    def setup(e):
+        l0 = (e.int("a0", 1, maxc), e.int("a1", 1, maxc))
+        l1 = (e.int("b0", 1, maxc), e.int("b1", 0, maxc))
+        mode = e.pick("mode", ("v_both", "v_first", "v_second", "v_scalar", "blocks"))
+        n = minn + e.choice("n", maxn - minn + 1)
+        d0, d1 = l0[0] + l0[1], l1[0] + l1[1]
+        pts = []
+        for t in range(n):
+            i = e.int(f"i{t}")
+            j = e.int(f"j{t}")
+            if nonneg:
+                e.assume(lambda: (i >= 0) & (j >= 0))
+            e.assume(lambda: (i >= -d0) & (i < d0) & (j >= -d1) & (j < d1))
+            pts.append((i, j))
+        return l0, l1, mode, pts
+
+    def run(e, l0, l1, mode, pts):
+        import operator
+        import dask.array as da
+        l0 = tuple(operator.index(c) for c in l0)
+        l1 = tuple(operator.index(c) for c in l1)
+        pts = [(operator.index(i), operator.index(j)) for i, j in pts]
+        x = np.arange(sum(l0) * sum(l1)).reshape(sum(l0), sum(l1)) * 3 + 1
+        d = da.from_array(x, chunks=(l0, l1))
+        ii = [p[0] for p in pts]
+        jj = [p[1] for p in pts]
+        if mode == "v_both":
+            want, r = x[ii, jj], d.vindex[ii, jj]
+        elif mode == "v_first":
+            want, r = x[ii, :], d.vindex[ii, :]
+        elif mode == "v_second":
+            want, r = x[1:, jj], d.vindex[1:, jj]
+            # NumPy: a single advanced index keeps its position; vindex documents that point dimensions come FIRST
+            want = np.moveaxis(want, 1, 0)
+        elif mode == "v_scalar":
+            want, r = x[ii, jj[0]], d.vindex[ii, jj[0]]
+        else:
+            # blocks[]: the block grid is 2 x 2; indices taken modulo the grid
+            bi = [i % 2 for i in ii]
+            bj = jj[0] % 2
+            starts0 = (0, l0[0], l0[0] + l0[1])
+            starts1 = (0, l1[0], l1[0] + l1[1])
+            want = np.concatenate([x[starts0[b]:starts0[b + 1], starts1[bj]:starts1[bj + 1]] for b in bi], axis=0)
+            r = d.blocks[bi, bj]
+            e.check(r.chunks == (tuple(l0[b] for b in bi), (l1[bj],)), f"blocks[{bi}, {bj}] chunks {r.chunks}")
+            r2 = d.blocks[bi[0]]
+            w2 = x[starts0[bi[0]]:starts0[bi[0] + 1]]
+            e.check(r2.chunks == ((l0[bi[0]],), l1) and bool((r2.compute(scheduler="sync") == w2).all()), f"blocks[{bi[0]}] differs from the block row")
+            r3 = d.blocks[::-1, bj:]
+            w3 = np.concatenate([x[starts0[b]:starts0[b + 1], starts1[bj]:] for b in (1, 0)], axis=0)
+            e.check(bool((r3.compute(scheduler="sync") == w3).all()) and r3.shape == w3.shape, f"blocks[::-1, {bj}:] differs")
+        got = r.compute(scheduler="sync")
+        what = f"{mode} points {pts} chunks {l0} x {l1}"
+        e.check(r.shape == want.shape, f"{what}: lazy shape {r.shape} != {want.shape}")
+        e.check(tuple(sum(c) for c in r.chunks) == want.shape, f"{what}: lazy chunks do not add up")
+        e.check(got.shape == want.shape and bool((got == want).all()), f"{what}: dask {got.tolist()} numpy {want.tolist()}")
+        return got.tolist()
+
+    return Obligation(f"vindex_blocks[points {minn}..{maxn},chunk<={maxc}{',non-negative' if nonneg else ''}]", setup, run)
+
+
 def mk_tuple(ndim, L, maxc):
     """index tuples of up to L items over a `ndim`-d array (2 blocks on axis 0, 1 on the others) from the grammar {None, int, slice(a, None) / slice(None, a), full slice, Ellipsis}:
     lazy output shape/chunks (newaxis positions, dropped integer axes, implicit trailing full slices) against the NumPy rule"""
@@ -660,11 +808,18 @@ def obligations(tier):
         obs.append(mk_take(3, 2, False))
         obs.append(mk_take(2, 2, True))
         obs.append(mk_mixed(2, 1, 1, ("int64",)))
+        obs.append(mk_dask_indexer(2, 1))
+        obs.append(mk_vindex_blocks(1, 2))
+        obs.append(mk_vindex_blocks(2, 1, minn=2))
         obs.append(mk_mixed(1, 2, 1, ("int8",)))
     else:
         obs.append(mk_take(5, 3, False))
         obs.append(mk_take(4, 2, True))
         obs.append(mk_mixed(2, 2, 1, ("int64", "int8")))
+        obs.append(mk_dask_indexer(3, 2))
+        obs.append(mk_vindex_blocks(1, 3))
+        obs.append(mk_vindex_blocks(2, 2, minn=2, nonneg=True))
+        obs.append(mk_vindex_blocks(3, 1, minn=3))
         obs.append(mk_mixed(3, 0, 1, ("int64",)))
         obs.append(mk_tuple(1, 4, 3))
         obs.append(mk_tuple(2, 4, 2))
